@@ -147,6 +147,9 @@ fn run_case(c: &Case) -> Option<(String, String)> {
         a.push(scratch.file("in.raw", &c.bytes).display().to_string());
     }
     a.extend(filter_args(c.filter));
+    if let Some(t) = c.label.strip_prefix("CUSTOM:") {
+        a.extend(["-c".to_string(), scratch.file("checks.toml", t.as_bytes()).display().to_string()]);
+    }
     let statp = scratch.join(if c.toml { "st.toml" } else { "st.json" });
     a.extend(["-S".to_string(), statp.display().to_string(), "-D".to_string(), if c.toml { "toml" } else { "json" }.to_string()]);
     let mut mode: Vec<String> = c.mode.iter().map(|s| s.to_string()).collect();
@@ -190,7 +193,8 @@ fn run_case(c: &Case) -> Option<(String, String)> {
         if got != want {
             return Some(("stat:unique_error_codes".into(), format!("unique_error_codes = {:?}, expected {:?}", got, want)));
         }
-        if st["error_stats"]["reported_errors"].as_array().map(|a| a.len() as u64) != Some(*n) {
+        let listed = st["error_stats"]["reported_errors"].as_array().map(|a| a.len() as u64).unwrap_or(0) + st["error_stats"]["custom_checks_stats_errors"].as_array().map(|a| a.len() as u64).unwrap_or(0);
+        if listed != *n {
             return Some(("stat:reported_errors".into(), "reported_errors length differs from total_errors".into()));
         }
     }
@@ -300,6 +304,14 @@ pub fn run(tier: Tier) -> i32 {
                 cases.push(Case { label: format!("witness {} with {k} RDH sanity faults", w.name), bytes: b.clone(), mode: m, filter: None, errors: Some((k as u64, vec!["10"])), toml: k == 3, stdin: false });
             }
         }
+    }
+    // custom-check failures carry four-digit codes: they must appear in full among the distinct codes
+    {
+        let w = &witnesses()[0];
+        let clean = grammar::interleave(&w.links, &w.order);
+        let n = clean.packets.len();
+        cases.push(Case { label: format!("CUSTOM:cdps = {}", n + 1), bytes: clean.bytes(), mode: vec!["check", "sanity"], filter: None, errors: Some((1, vec!["9001"])), toml: false, stdin: false });
+        cases.push(Case { label: format!("CUSTOM:cdps = {}\ntriggers_pht = 55", n + 2), bytes: clean.bytes(), mode: vec!["check", "all", "its"], filter: None, errors: Some((2, vec!["9001", "9002"])), toml: false, stdin: false });
     }
     let res = par_map(&cases, |_, c| run_case(c));
     let mut nontrivial = 0u64;
